@@ -83,6 +83,22 @@ Theorem C03_complete :
 Proof. exact bib_complete_wire. Qed.
 Print Assumptions C03_complete.
 
+(** Pairing invariant of the BIB the source builds: target list = operations
+    in the order given, one result per target, result i computed for target i
+    (the verifier pairs them positionally; the harness checks the same pairing
+    on the wire with an independent MAC computation). *)
+Theorem C03_pairing :
+  forall (key : Type) (mac : key -> bytes -> bytes) (wrap : key -> key -> bytes)
+         (kind : ckind) (kg : keying key) (protected : bytes) (unprot : list (cbor * cbor)) (b : bundle) (sec : cblock)
+         (source : cbor) (s : scope) (addl : bytes) (au : option bytes) (targets : list N) (a : asb),
+    apply_bib_asb key mac wrap kind kg protected unprot b sec source s addl au targets = Some a ->
+    a_targets a = targets /\ length (a_results a) = length (a_targets a) /\
+    forall i t, nth_error (a_targets a) i = Some t ->
+      exists rs, nth_error (a_results a) i = Some rs /\
+                 apply_bib_target key mac wrap kind kg protected unprot b sec source s addl t = Some rs.
+Proof. exact bib_pairing. Qed.
+Print Assumptions C03_pairing.
+
 (** Soundness under the idealised MAC: if the tag the source computed over
     [o] under [k] is accepted by the verifier for its own view [o'] of the
     (possibly altered) bundle, then the covered content is unchanged and the
